@@ -260,9 +260,9 @@ DAY = 86400 * US
 
 
 def _dt_input(z3, s, name, B):
-    """an aware datetime: wall-clock microseconds w, UTC offset o (strictly between -24 h and 24 h), instant w - o in [0, B)"""
+    """an aware datetime: wall-clock microseconds w, UTC offset o (strictly between -24 h and 24 h), instant w - o in (-B, B)"""
     w, o = z3.Int(name + "_w"), z3.Int(name + "_o")
-    s.add(o > -DAY, o < DAY, w - o >= 0, w - o < B)
+    s.add(o > -DAY, o < DAY, w - o > -B, w - o < B)
     return {"w": w, "o": o}
 
 
@@ -314,8 +314,8 @@ OFFS = [0, 1, -1, 3600 * US, -3600 * US, 2 * 3600 * US, 19800 * US, -DAY + 1, DA
 
 def _points(kind, rng, n):
     B = BOUND_S * US
-    lo = -B + 1 if kind == "timedelta" else 0
-    pts = [(p, 0) for p in (0, 1, 2 if kind != "timedelta" else -1, 999999, 10 ** 6, 1000001, 86400 * US, 86400 * US + 1, B - 1, B - 2, (B // 2) + 1,
+    lo = -B + 1
+    pts = [(p, 0) for p in (0, 1, -1, -1500000, -999999, -1000001, 999999, 10 ** 6, 1000001, 86400 * US, 86400 * US + 1, B - 1, B - 2, (B // 2) + 1,
                             1234567890123456)]
     for _ in range(n):
         pts.append((rng.randrange(lo, B), 0 if kind == "timedelta" else rng.choice(OFFS + [rng.randrange(-DAY + 1, DAY)])))
@@ -351,7 +351,7 @@ def q_roundtrip(inst, timeout):
             s.add(u > -B, u < B)
             x, inst_u = u, u
         else:
-            # datetime.fromtimestamp of negative timestamps is platform dependent: aware datetimes from the epoch on
+            # instants before the epoch included (datetime.fromtimestamp accepts negative timestamps on this platform)
             x = _dt_input(z3, s, "d", B)
             inst_u = _instant(x)
         if kind == "datetime_td":
@@ -493,19 +493,21 @@ def q_order(inst, timeout):
 def q_identity(inst, timeout):
     """already-converted values are returned unchanged; now is an aware UTC datetime and routes through to_datetime / default_now"""
     t0 = time.time()
+    cannot = None
     try:
         T = _terms()
     except Cannot as e:
-        return {"status": "ERROR", "message": "translator cannot encode %r" % (e.args,)}
+        T, cannot = None, e
     bad = []
-    if T["to_seconds"]["float"] != ("id",):
-        bad.append("to_seconds(float) = %r" % (T["to_seconds"]["float"],))
-    if T["to_datetime"]["datetime"] != ("id",):
-        bad.append("to_datetime(datetime) = %r" % (T["to_datetime"]["datetime"],))
-    if T["to_timedelta"]["timedelta"] != ("id",):
-        bad.append("to_timedelta(timedelta) = %r" % (T["to_timedelta"]["timedelta"],))
-    if "fromtimestamp_naive" in repr(T["to_datetime"]["float"]):
-        bad.append("to_datetime(float) = %r (a naive datetime)" % (T["to_datetime"]["float"],))
+    if T is not None:
+        if T["to_seconds"]["float"] != ("id",):
+            bad.append("to_seconds(float) = %r" % (T["to_seconds"]["float"],))
+        if T["to_datetime"]["datetime"] != ("id",):
+            bad.append("to_datetime(datetime) = %r" % (T["to_datetime"]["datetime"],))
+        if T["to_timedelta"]["timedelta"] != ("id",):
+            bad.append("to_timedelta(timedelta) = %r" % (T["to_timedelta"]["timedelta"],))
+        if "fromtimestamp_naive" in repr(T["to_datetime"]["float"]):
+            bad.append("to_datetime(float) = %r (a naive datetime)" % (T["to_datetime"]["float"],))
     from reactivex.scheduler import ImmediateScheduler, CurrentThreadScheduler, TimeoutScheduler, NewThreadScheduler, EventLoopScheduler
     from reactivex.scheduler.scheduler import Scheduler, UTC_ZERO
     from reactivex.internal.basic import default_now
@@ -525,9 +527,18 @@ def q_identity(inst, timeout):
     td = timedelta(seconds=7)
     if Scheduler.to_seconds(x) is not x or Scheduler.to_datetime(d) is not d or Scheduler.to_timedelta(td) is not td:
         bad.append("identity on already-converted values fails concretely")
+    for off in OFFS[1:]:
+        for u in (0, 5 * US, 1234567, -1500000):
+            d2 = _mk("datetime", u, off)  # the same kind of value written in another zone
+            r2 = Scheduler.to_datetime(d2)
+            if r2 != d2 or r2.utcoffset() != d2.utcoffset():
+                bad.append("to_datetime changes an aware datetime given with UTC offset %d us: %r -> %r" % (off, d2, r2))
+                break
     res = {"queries": 0, "solver_s": 0.0, "paths": 9, "wall_s": round(time.time() - t0, 2)}
     if bad:
-        return dict(res, status="REFUTED", replayed=True, args={"findings": bad}, replay_detail="; ".join(bad))
+        return dict(res, status="REFUTED", replayed=True, args={"findings": bad[:4]}, replay_detail="; ".join(bad[:4]))
+    if cannot is not None:
+        return dict(res, status="ERROR", message="translator cannot encode %r (the concrete identity checks passed)" % (cannot.args,))
     return dict(res, status="CONFIRMED", covered=["__end__"], message="dispatch terms: %r" % (T,))
 
 
@@ -563,7 +574,7 @@ def JOBS(tier):
 
 
 ENCODED = ["reactivex/scheduler/scheduler.py", "reactivex/internal/basic.py"]
-BOUNDS = {"quick": "|t| < 2^32 s (datetimes from the epoch on, written with any UTC offset strictly between -24 h and 24 h), "
+BOUNDS = {"quick": "|t| < 2^32 s (datetimes on both sides of the epoch, written with any UTC offset strictly between -24 h and 24 h), "
                    "microsecond-aligned values; at 2^33 s the round-trip query is "
                    "satisfiable (float64 resolution) -- that is the stated limit of the claim, not a finding",
           "thorough": "same queries"}
